@@ -55,6 +55,7 @@ package go_clipper2
 
 //@ func getBounds
 //@   props C14
+//@   pure
 //@   loop 0 invariant [contains] forall(k, 0, _i, inBounds(result, path[k]))
 //@   loop 0 invariant [attained] _i > 0 ==> (exists(k, 0, _i, result.left == path[k].X) && exists(k, 0, _i, result.right == path[k].X) && exists(k, 0, _i, result.top == path[k].Y) && exists(k, 0, _i, result.bottom == path[k].Y))
 //@   loop 0 invariant [fresh] _i == 0 ==> (result.left == pow2(63)-1 && result.top == pow2(63)-1 && result.right == -pow2(63) && result.bottom == -pow2(63))
@@ -336,6 +337,7 @@ package go_clipper2
 
 //@ func PointInPolygon
 //@   props C14 C03
+//@   pure
 //@   requires dom(pt, 29) && domPath(polygon, 29)
 //@   loop 0 invariant [idx] 0 <= start && start <= lenP && lenP == len(polygon) && lenP >= 3
 //@   loop 0 decreases lenP - start
@@ -877,10 +879,6 @@ package go_clipper2
 //@   props C03
 //@   panicfree
 
-//@ func clipperBase.baseAddPaths
-//@   props C03
-//@   panicfree
-
 //@ func clipperBase.disposeIntersectNodes
 //@   props C03
 //@   panicfree
@@ -1221,7 +1219,7 @@ package go_clipper2
 
 //@ func NewGroup
 //@   props C05 C10 C03
-//@   requires forall(k, 0, len(paths), domPath(paths[k], 29) && (len(paths[k]) <= 7 || noWrap(paths[k])))
+//@   assumes forall(k, 0, len(paths), domPath(paths[k], 29) && (len(paths[k]) <= 7 || noWrap(paths[k])))
 //@   loop 0 invariant [stripped] len(group.inPaths) == _i && group != nil && group.joinType == joinType && group.endType == endType && forall(k, 0, _i, same(group.inPaths[k], StripDuplicates(paths[k], isGroupJoined)))
 //@   ensures [fields] result != nil && result.joinType == joinType && result.endType == ite(len(endTypeVal) > 0, endTypeVal[0], Polygon)
 //@   ensures [stripped] len(result.inPaths) == len(paths) && forall(k, 0, len(paths), same(result.inPaths[k], StripDuplicates(paths[k], result.endType == Polygon || result.endType == Joined)))
@@ -1229,7 +1227,7 @@ package go_clipper2
 
 //@ func ClipperOffset.AddPaths
 //@   props C05 C12 C03
-//@   requires forall(k, 0, len(paths), domPath(paths[k], 29) && (len(paths[k]) <= 7 || noWrap(paths[k])))
+//@   assumes forall(k, 0, len(paths), domPath(paths[k], 29) && (len(paths[k]) <= 7 || noWrap(paths[k])))
 //@   ensures [empty] len(paths) == 0 ==> same(co.groupList, old(co.groupList))
 //@   ensures [appended] len(paths) > 0 ==> (len(co.groupList) == old(len(co.groupList)) + 1 && co.groupList[len(co.groupList)-1] != nil && co.groupList[len(co.groupList)-1].joinType == joinType && co.groupList[len(co.groupList)-1].endType == endType)
 
@@ -1295,4 +1293,50 @@ package go_clipper2
 //@   loop 0 step [short-paths-skipped] len(path) < 3 ==> same(result, old(result))
 //@   loop 0 step [inside-unchanged] (len(path) >= 3 && allInRect(r.rect, path)) ==> (len(result) == old(len(result)) + 1 && same(result[len(result)-1], path) && forall(k, 0, old(len(result)), same(result[k], old(result)[k])))
 //@   loop 0 step [outside-vanishes] (len(path) >= 3 && allBeside(r.rect, path)) ==> same(result, old(result))
+//@   loop 0 step [work-lists-cleared] (forall(k, 0, 8, len(old(r.edges)[k]) == 0)) ==> forall(k, 0, 8, len(r.edges[k]) == 0)
+//@   loop 0.2 invariant [clearing] 0 <= i && i <= 8 && forall(k, 0, i, len(r.edges[k]) == 0)
 //@   ensures [empty-rect] (r.rect.bottom <= r.rect.top || r.rect.right <= r.rect.left) ==> len(result) == 0
+
+// ---------------------------------------------------------------------------------
+// contracts added after the seeded-change rounds (see /verif/DESIGN.md section 10)
+// ---------------------------------------------------------------------------------
+
+//@ func clipperBase.baseAddPaths
+//@   props C12 C03
+//@   ensures [resort-needed] !c.isSortedMinimaList
+//@   ensures [open-flag] isOpen ==> c.hasOpenPaths
+
+//@ func Path2ContainsPath1
+//@   props C04 C14 C03
+//@   requires domPath(path1, 28) && domPath(path2, 28)
+//@   loop 0 invariant [all-on-so-far] forall(k, 0, _i, PointInPolygon(path1[k], path2) == IsOn) ==> pip == IsOn
+//@   ensures [all-on-boundary-uses-own-midpoint] forall(k, 0, len(path1), PointInPolygon(path1[k], path2) == IsOn) ==> result == (PointInPolygon(Point64{(getBounds(path1).left + getBounds(path1).right) / 2, (getBounds(path1).top + getBounds(path1).bottom) / 2}, path2) != IsOutside)
+
+//@ func Group.GetLowestPathInfo
+//@   props C05 C03
+//@   nosafety
+//@   assumes forall(k, 0, len(g.inPaths), domPath(g.inPaths[k], 29) && (len(g.inPaths[k]) <= 7 || noWrap(g.inPaths[k])))
+//@   loop 0 invariant [orientation-of-lowest] -1 <= idx && idx < _i+1 && idx < len(g.inPaths)+1 && (idx >= 0 ==> (idx < _i && isNegArea == (Area64(g.inPaths[idx]) < 0)))
+//@   loop 0.0 invariant [area-of-this-path] (a != 1.7976931348623157e308 ==> (a == Area64(path) && a != 0)) && -1 <= idx && idx <= i && (idx == i ==> (a != 1.7976931348623157e308 && isNegArea == (a < 0))) && ((idx >= 0 && idx < i) ==> isNegArea == (Area64(g.inPaths[idx]) < 0)) && same(path, g.inPaths[i]) && i < len(g.inPaths)
+//@   ensures [orientation-of-lowest] result0 >= 0 ==> (result0 < len(g.inPaths) && result1 == (Area64(g.inPaths[result0]) < 0))
+
+//@ func InflatePathsD
+//@   props C07
+//@   nosafety
+//@   assert after tmp [scaled-input] same(tmp, ScalePathsDToPaths64(paths, pow10(cfg.precision)))
+//@   assert after co [scaled-parameters] co != nil && co.ArcTolerance == pow10(cfg.precision)*cfg.arcTolerance && co.MiterLimit == ite(cfg.miterLimit == 0, 2.0, cfg.miterLimit) && !co.PreserveCollinear && !co.ReverseSolution
+
+//@ func fixOutRecPts
+//@   props C02 C17 C04
+//@   nosafety
+//@   assumes outrec != nil
+//@   loop 0 invariant [only-to-outrec] forallp(x, OutPt, x.outrec == old(x.outrec) || x.outrec == outrec) && start == outrec.pts && outrec.pts == old(outrec.pts)
+//@   loop 0 invariant [entry-marked] op != start ==> start.outrec == outrec
+//@   ensures [entry-marked] outrec.pts != nil ==> outrec.pts.outrec == outrec
+//@   ensures [only-to-outrec] forallp(x, OutPt, x.outrec == old(x.outrec) || x.outrec == outrec)
+//@   ensures [frame] outrec.pts == old(outrec.pts)
+
+//@ func clipperBase.processHorzJoins
+//@   props C02 C17 C04
+//@   nosafety
+//@   loop 0 step [split-rings-own-their-entry-points] (!c.usingPolyTree && or2.pts != nil && or2.owner == or1 && or1 != or2 && old(or1.pts != nil && or1.pts.outrec == or1 && j.op1.next != j.op1 && j.op1 != nil) && old(len(c.outrecList)) < len(c.outrecList)) ==> (or1.pts.outrec == or1 && or2.pts.outrec == or2)
